@@ -71,6 +71,17 @@ CHECKS = {
              'pages survive; no power loss); interception of elfi.store.open and NpyArray.__setitem__ (a history with no '
              'logged raw operation aborts the check).',
         design_ref='4 C06'),
+    'C07': dict(
+        level='exploration',
+        technique='exhaustive product enumeration of (prior family, batch_size, n_samples, threshold/quantile schedule, '
+                  'seed, continuation) over real SMC runs, every population recomputed independently with numpy/scipy',
+        text='Every configuration inside the bound is run on the real SMC sampler; population size, discrepancies against '
+             'the threshold in force (user value or the exact-rational weighted quantile set of the previous population), '
+             'positive prior density, unit first weights, importance weights prior/mixture with covariance twice the '
+             'weighted variance, reported covariances and simulation counts are recomputed from the returned populations.',
+        note='Trusted: scipy.stats densities and numpy.cov(aweights) as reference formulas; rtol 1e-8 for weights and '
+             'covariances; degenerate-weight runs are counted, not judged.',
+        design_ref='4 C07'),
     'C14': dict(
         level='model_checking',
         technique='explicit-state BFS over model edit histories (add/become/remove/copy/save+load/edits on a copy) on real '
